@@ -45,6 +45,7 @@ func main() {
 		list     = flag.Bool("list", false, "list registered properties")
 		verbose  = flag.Bool("v", false, "print every obligation")
 		manifest = flag.String("manifest", "", "write MANIFEST.json to this path and exit")
+		sweep    = flag.Bool("sweep", false, "tooling: load the tree once (quick configuration) and run every property; prints one line per property with the violated rule instances; writes no evidence")
 	)
 	flag.Parse()
 	if *manifest != "" {
@@ -64,6 +65,9 @@ func main() {
 			fmt.Println(id)
 		}
 		return
+	}
+	if *sweep {
+		os.Exit(runSweep(*repo, *known))
 	}
 	prop := registry[*propID]
 	if prop == nil {
@@ -264,4 +268,56 @@ func runAllConfigs(prop *Property, repo string) []runResult {
 
 func childFailure(prop *Property, cfg BuildConfig, msg string) runResult {
 	return runResult{Config: cfg.Name, Stats: map[string]int{}, Obls: []Obl{{Rule: prop.ID + ".checker", Key: "child:" + cfg.Name, OK: false, Config: cfg.Name, Detail: msg}}}
+}
+
+// runSweep is a development aid (seeded-change and refactoring corpora): one
+// load of the quick configuration, every claimed property evaluated on it.
+func runSweep(repo, known string) int {
+	kf, err := loadKnown(known)
+	if err != nil {
+		fmt.Fprintln(os.Stderr, err)
+		return 2
+	}
+	p, err := loadProg(repo, buildConfigs[0], true)
+	if err != nil {
+		fmt.Printf("LOAD-FAILED %v\n", err)
+		return 2
+	}
+	var ids []string
+	for id := range registry {
+		if strings.HasPrefix(id, "C") {
+			ids = append(ids, id)
+		}
+	}
+	sort.Strings(ids)
+	rc := 0
+	for _, id := range ids {
+		prop := registry[id]
+		var obls []Obl
+		func() {
+			defer func() {
+				if r := recover(); r != nil {
+					obls = append(obls, Obl{Rule: id + ".checker", Key: "panic", Detail: fmt.Sprint(r)})
+				}
+			}()
+			c := newCtx(p, id, false)
+			prop.Run(c)
+			c.finish()
+			obls = c.Obls
+		}()
+		seen := map[string]bool{}
+		var bad []string
+		for _, o := range obls {
+			if o.OK || kf.match(id, o) != nil || seen[o.Rule+o.Key] {
+				continue
+			}
+			seen[o.Rule+o.Key] = true
+			bad = append(bad, o.Rule+" {"+o.Key+"}")
+		}
+		if len(bad) > 0 {
+			rc = 1
+			fmt.Printf("SWEEP %s: %s\n", id, strings.Join(bad, "; "))
+		}
+	}
+	return rc
 }
